@@ -153,7 +153,7 @@ SYMS = {
     "PUN": list(".,;:!?-()[]'/*+=@|"), "TEX": list("&%#_{}~\\<>") + ["$"],
     "URL": ["http://a.b/c", "https://example.org/path_x/file.html", "www.x.org/page", "https://x.org/a_b?c=d&e=f%20g", "www.x.org/~u",
             "http://a.b/c#frag", "https://a.b/{x}"],
-    "MATH": ["$x^2$", "$a_b$", "$\\alpha$", "$a < b$", "$\\frac{1}{2}$"],
+    "MATH": ["$x^2$", "$a_b$", "$\\alpha$", "$a < b$", "$\\frac{1}{2}$", "$p = \\$5$", "$\\$$"],
     "WORD": ["Zürich", "naïve", "AT&T", "100%", "C#", "under_score", "{braces}", "a~b"],
 }
 EXCLUDED = ["--", "``", "''", "!`", "?`", "^", '"']
@@ -164,12 +164,13 @@ URL_BAD = set("%&~{}$\\#^")
 def in_domain(text, keep_math):
     """R3: the alphabet of the statement and the sequences it excludes; plus two ambiguities that are not claims of the
     statement: a literal '$' next to math spans, and a backslash directly before '$'."""
-    plain = re.sub(r"\$[^$]*\$", " ", text) if keep_math else text
+    # a math span: from an unescaped '$' to the next unescaped '$' (an escaped '\$' may occur inside)
+    plain = re.sub(r"(?<!\\)\$.*?[^\\]\$", " ", text) if keep_math else text
     if any(x in plain for x in EXCLUDED):
         return False
-    if "\\$" in text:
+    if "\\$" in plain:
         return False
-    nd = text.count("$")
+    nd = len(re.findall(r"(?<!\\)\$", text))
     if nd % 2 == 1 and nd > 1:
         return False
     if not keep_math and nd:          # without keep_math a math span is plain text containing '^' etc.
